@@ -73,6 +73,10 @@ def generate(seed, tier="quick"):
     if sub(seed, "flag0").random() < 0.15:
         prof.special.append("flag0")
     prog = W.gen_program(rng, prof, {"prev": ["none"], "n_sites": (1, 5), "n_tests": (1, 3)})
+    mrng = sub(seed, "mutation")
+    if mrng.random() < 0.2:
+        # the observed object is mutated after the comparison (the read-back compares before it mutates, too)
+        W.add_mutation_test(mrng, prog["files"][0], style=mrng.choice(["rec", "assert"]))
     return {"program": prog, "driver": driver, "fmt": draw_fmt(sub(seed, "fmt"))}
 
 
